@@ -5,7 +5,7 @@
 //!   standin <mode> [repo]            search; prints one JSON line: {"kind":"standin",...} or {"kind":"none","cases":N}
 //!   standin --replay '<json>'        re-runs the recorded case; exit 1 = reproduced
 //!   standin phrases <file> [zeros]   spelled numbers from tools/spell.py (C01, C16)
-//! modes: ident, stream (C02)  dec (C05)  wf (C06)  consist (C07)  thr (C09)  iter (C15)  orule (C18)  ncase (C11)  facade (C13)  punct (C10)
+//! modes: ident, stream (C02)  dec (C05)  wf (C06)  consist (C07)  thr (C09)  iter (C15)  orule (C18)  ncase (C11)  facade (C13)  punct (C10)  ozero (C16)
 use std::panic::{catch_unwind, AssertUnwindSafe};
 use text2num::word_to_digit::Replace;
 use text2num::lang::{Dutch, English, French, German, Italian, Portuguese, Spanish};
@@ -532,6 +532,19 @@ fn cases(mode: &str) -> Vec<Case> {
                     });
                 }
             }
+            if mode == "wf" {
+                // the text keeps every digit, also beyond 2^53 where the f64 value cannot
+                for (code, words, want, ord) in [("de", "neuntausendacht billion und eins", "9008000000000001", false), ("de", "neuntausendacht billion und erste", "9008000000000001.", true)] {
+                    let (c, ws, w) = (code.to_string(), words.to_string(), want.to_string());
+                    out.push(Case {
+                        descr: serde_json::json!({"mode":"wf","lang":code,"tokens":words,"exact":true}),
+                        run: guard(move || {
+                            let r = find_numbers(toks(&ws).into_iter(), &lang(&c), 0.0);
+                            if r.len() != 1 || r[0].text != w || r[0].is_ordinal != ord { Some(format!("{:?}: {:?}, expected the one occurrence {:?}", ws, occs(&r), w)) } else { None }
+                        }),
+                    });
+                }
+            }
             if mode == "thr" {
                 // the property's own characterisation on systematic sequences: 2 or 3 numbers (small / large, cardinal / ordinal) with a
                 // comma, nothing, an ordinary word or a period between them: a number recognised at threshold 0 is reported at
@@ -735,6 +748,22 @@ fn cases(mode: &str) -> Vec<Case> {
                             }
                         }
                         None
+                    }),
+                });
+            }
+        }
+        // C16: a zero (English also "o") said after a non-zero number starts a new numeral; zeros before a number stay in front of it
+        "ozero" => {
+            let t = [("en", "twenty o", "20 0"), ("en", "five o", "5 0"), ("en", "room two hundred o please", "room 200 0 please"), ("en", "sixty o six", "60 06"), ("en", "o eight", "08"),
+                     ("en", "twenty zero", "20 0"), ("en", "five zero zero", "5 00"), ("en", "zero", "0"), ("fr", "vingt zéro", "20 0"), ("fr", "cinq zéro zéro", "5 00"),
+                     ("es", "veinte cero", "20 0"), ("pt", "vinte zero", "20 0"), ("it", "venti zero", "20 0"), ("de", "zwanzig null", "20 0"), ("nl", "twintig nul", "20 0")];
+            for (code, text, want) in t {
+                let (c, t, w) = (code.to_string(), text.to_string(), want.to_string());
+                out.push(Case {
+                    descr: serde_json::json!({"mode":"ozero","lang":code,"text":text}),
+                    run: guard(move || {
+                        let r = replace_numbers_in_text(&t, &lang(&c), 0.0);
+                        if r != w { Some(format!("{:?} -> {:?}, expected {:?}", t, r, w)) } else { None }
                     }),
                 });
             }
